@@ -116,6 +116,16 @@ def run(prog, tier, extra=None):
                 continue
             if b.kind == "Closure" and not b.is_coroutine and b.ty(0)["s"] == "bool":
                 verdict_closures.add(b.path)
+            if found and b.kind == "Closure" and not b.is_coroutine and b.ty(0)["s"] == "bool" and s["ty"]["s"] == "bool":
+                # a closure handed to a selecting adaptor may pick out the *rejected* elements (`filter(|tx| !tx.validate(..))` feeding a
+                # removal loop): then it returns true only when the verdict rejects - the verdict is used, with the opposite reading
+                cons = gate.closure_consumers(prog, b.path)
+                if cons and all(c in gate.SELECTING for c in cons):
+                    inv, _ = gate.check_gate(b, s, accept, units, verdict_accepts=True)
+                    if not inv:
+                        res.sample({"site": b.loc(s["bb"]), "consumer": consumer_name(b.path), "verdict": short_callee, "adaptor": cons,
+                                    "verdict": "selects exactly the rejected elements (true only when the verdict rejects)"})
+                        continue
             if found:
                 kind, path = sorted(found.items())[0]
                 res.add(Finding(R1, key,
@@ -187,8 +197,11 @@ def run(prog, tier, extra=None):
         owner = e.src[: -len("::{closure#0}")] if e.src.endswith("::{closure#0}") else e.src
         if owner in callers_ok and not owner.endswith("add_transaction_if_validates"):
             TXV = CORE + "consensus::transaction::Transaction::validate"
-            validates = any((t2.get("res") or t2.get("callee")) == TXV for p2, b2 in prog.bodies.items()
-                            if (p2 == owner or p2.startswith(owner + "::{closure")) and not b2.is_promoted for _, t2 in b2.calls())
+            own_bodies = [b2 for p2, b2 in prog.bodies.items() if (p2 == owner or p2.startswith(owner + "::{closure")) and not b2.is_promoted]
+            # ... or in a small private helper those call (`.filter(|tx| self.can_return_to_mempool(tx))`)
+            helper_bodies = [prog.bodies[h] for b2 in own_bodies for _, t2 in b2.calls()
+                             for h in [t2.get("res") or t2.get("callee") or ""] if h in prog.bodies and h.startswith("saito_") and prog.bodies[h].ty(0)["s"] == "bool"]
+            validates = any((t2.get("res") or t2.get("callee")) == TXV for b2 in own_bodies + helper_bodies for _, t2 in b2.calls())
             if not validates:
                 res.add(Finding(R2, "C01.who-may-insert|unvalidated|%s" % owner, "%s hands transactions to Mempool::add_transaction without putting them through "
                                 "Transaction::validate: a transaction that is no longer valid against the ledger enters the pool" % consumer_name(owner), cg.bodies[e.src].loc(e.bb)))
